@@ -139,7 +139,8 @@ def finish(ctx, out=sys.stdout):
     for k in stale:
         w('note: listed known finding no longer reported on this tree: %s\n'
           % k)
-    replay_dir = os.path.join(VERIF_DIR, 'evidence', 'replay')
+    replay_dir = os.environ.get('H2VERIF_REPLAY_DIR') or \
+        os.path.join(VERIF_DIR, 'evidence', 'replay')
     seen = set()
     n = 0
     for o in violations:
